@@ -65,7 +65,8 @@ def ig_records(case, ctx):
                                     "chrom2": [cname(r[2]) for r in ch], "pos2": np.array([r[3] for r in ch], dtype=np.int64)})
         try:
             cooler.create_cooler(out, bins, (agg(san(f)) for f in frames()), ordered=False, symmetric_upper=symm,
-                                 boundscheck=False, triucheck=False, dupcheck=False, temp_dir=d)
+                                 boundscheck=False, triucheck=False, dupcheck=False, temp_dir=d,
+                                 max_merge=case.get("max_merge", 200))
         except Exception as ex:
             return {"err": type(ex).__name__}
     else:
@@ -77,6 +78,8 @@ def ig_records(case, ctx):
                 f.write(f"r{k}\t{cname(r[0])}\t{r[1]}\t{cname(r[2])}\t{r[3]}\t+\t-\n")
         args = ["cload", "pairs", _bins_arg(d, table), txt, out, "-c1", "2", "-p1", "3", "-c2", "4", "-p2", "5",
                 "--chunksize", str(case["chunk"]), "--temp-dir", d]
+        if case.get("max_merge"):
+            args += ["--max-merge", str(case["max_merge"])]
         if not case["one_based"]:
             args.append("--zero-based")
         if tril == "drop":
